@@ -107,6 +107,21 @@ CLAIMED = {
              "must build the rotation row-wise (no whole-batch special case). Numerical round trips on SO(3) are not decided.",
         technique="frame typing by abstract interpretation over ast, convention-table rules, CFG reachability under a branch condition",
         ref="5 C11"),
+    "C12": dict(
+        text="Lock-step rules prove that every row-returning method either applies one selector to positions, quaternions and features or goes "
+             "through the single to_dataframe/from_dataframe table with the same arguments, and that concatenations use one operand order for all "
+             "three containers; a field-ownership rule (writers of _pos/_rotator/_features frozen in a table) and CFG must-pass-through checks prove "
+             "the validation guards dominate the stores they protect (feature length, rotation count, reserved names, extra columns, validate-before-"
+             "mutate in append); an effect analysis proves the non-mutating methods write nothing. Polars semantics are trusted.",
+        technique="lock-step/same-source rules on ast, field-ownership table, CFG must-pass-through, effect analysis",
+        ref="5 C12"),
+    "C13": dict(
+        text="Reader/writer table agreement only: the reserved column list, the key order and column indices written by to_dataframe, the default "
+             "pos_cols + rot_cols of all four readers, the feature placement, the funnels (readers -> from_dataframe, writers -> to_dataframe) and the "
+             "suffix sets of to_file/from_file are extracted from the source and must agree. This is a necessary condition of the round trip for "
+             "every table; numerical precision, CSV formatting and the rotation-vector branch cut are not decided.",
+        technique="reader/writer table-agreement rule on ast (claimed for layout only)",
+        ref="5 C13"),
 }
 
 NOT_APPLICABLE = {
